@@ -330,6 +330,21 @@ impl Prop for C20 {
                             }
                         }
                     }
+                    // candidates derived from the NAME: what the checker itself expects for each part after a hyphen, taken as a name of its own
+                    for (i, _) in name.match_indices('-') {
+                        let tail = &name[i + 1 ..];
+                        let cands: Vec<String> = test_single_game_rule("zzzzqq", tail).iter().map(|x| x.expected_id.clone()).collect();
+                        for cand in cands {
+                            let accepted = test_single_game_rule(&cand, name).is_empty();
+                            let member = ea.contains(&cand);
+                            if accepted != member {
+                                return Err((
+                                    if member { "an id reported as expected is rejected".to_string() } else { "an id that is never reported as expected is accepted|id of the part after a hyphen".to_string() },
+                                    json!({"candidate": cand, "reported_expected": ea, "part": tail}),
+                                ));
+                            }
+                        }
+                    }
                     Ok(())
                 });
                 match r {
